@@ -6,7 +6,7 @@ from harness import ctl
 LEVEL = 'model_checking'
 MANIFEST = {'category': 'model_checking', 'engine': 'symx+z3',
  'technique': 'symbolic execution of one live-view step (ConnectionManager.message -> ConnectionImpl.message -> listener fan-out -> Controller) from an arbitrary controller state with solver-chosen filter/breakpoint verdicts',
- 'text': 'From every controller state (selection none/A/B, <= 3 recorded messages, abstract filter and breakpoint leaves with symbolic verdicts), optionally after one filter/connection command, one or two arriving messages: z3 proves the out stream gains exactly the message lines of the arrivals that are on the selected connection and match the (accumulated) filter, in arrival order, and that all_messages / Connection.messages() gain every arrival whatever the verdicts; commands print no message line and leave the records untouched. One step from an arbitrary state covers histories of any length.',
+ 'text': 'From every controller state (selection none/A/B, <= 3 recorded messages, abstract filter and breakpoint leaves with symbolic verdicts), optionally after one filter/connection command, one or two arriving messages: z3 proves the out stream gains exactly the message lines of the arrivals that are on the selected connection and match the (accumulated) filter, in arrival order, and that all_messages / Connection.messages() gain every arrival whatever the verdicts; commands print no message line and leave the records untouched. One step from an arbitrary state covers histories of any length. Plus, with nothing stubbed (real decoder, line loop, manager, controller, Message.show, Output): streams of <= 3 (4) further lines from a pool with IDENTICAL consecutive lines, time steps from 0 to more than an hour, two connections, five real matcher texts as filter - the message lines shown are exactly the matching ones, each once, in arrival order, and every message is recorded.',
  'note': 'Trusted: z3, lib/symx.py. Filters are abstract leaves (C05 covers real matchers, C12 accumulation). Message line text stubbed (C16/C17).'}
 EXPLANATION = MANIFEST['text']
 ASSUMPTIONS = ['abstract matcher leaves', 'Message.show stubbed to a tagged line', 'matcher.parse stubbed for the filter command (text -> a fresh leaf)']
@@ -124,7 +124,8 @@ def rendered(ctx, case):
     from lib.stubs import RecStream
     import logging
     logging.disable(logging.CRITICAL)
-    n, ftext = case
+    n, ftext = case[:2]
+    first_body = case[2] if len(case) > 2 else None
     protocol.interfaces.clear()
     util.color_output = False
     wl.Message.base_time = None
@@ -133,7 +134,7 @@ def rendered(ctx, case):
     t = 5000000
     lines = ['[%d.%03d] <%s>  -> wl_display@1.get_registry(new id wl_registry@2)' % (t // 1000, t % 1000, c) for c in ('1', '2')]
     for k in range(n):
-        body = ctx.choose(pool, 'line%d' % k)
+        body = pool[first_body] if (k == 0 and first_body is not None) else ctx.choose(pool, 'line%d' % k)
         t += ctx.choose(steps, 'step%d' % k)
         tag = '1' if k == 0 else ctx.choose(['1', '2'], 'tag%d' % k)
         lines.append('[%d.%03d] <%s> %s' % (t // 1000, t % 1000, tag, body))
@@ -187,7 +188,7 @@ def obligations(tier):
                     if cmd in (None, 'filter', 'typo'):
                         cases.append((pre, sel, cmd, (closed, 1 - closed), 10 + closed))
     bounds = 'records <= 3, 2 connections, selection none/A/B (selected connection possibly closed), optional command (filter / connection A / B / all), 1-%d arrivals; verdicts of all leaves symbolic' % max(len(a) for a in arrs)
-    rcases = [(k, f) for k in ((2, 3) if tier == 'quick' else (2, 3, 4)) for f in ('*', 'wl_registry.global', '! wl_registry.global', 'B:', 'wl_a')]
+    rcases = [(k, f, b) for k in ((2, 3) if tier == 'quick' else (2, 3, 4)) for f in ('*', 'wl_registry.global', '! wl_registry.global', 'B:', 'wl_a') for b in range(4)]
     return [Ob('live-view-rendered', 'symx', 'nothing stubbed: streams with identical consecutive lines, time steps 0 .. > 1 h, two connections, real matchers as filter: shown lines = matching messages, each once, in order',
                FUNCS + ['core.wl.message:Message.show', 'core.output.output:Output.show', 'backends.libwayland_debug_output.parse:into_sink'],
                '<= %d further lines from a pool of 4 x 5 time steps x 2 connections (exhaustive over the choices), 5 filters' % (3 if tier == 'quick' else 4), rendered, cases=rcases),
